@@ -12,6 +12,7 @@ import random
 
 from .. import gen, simrun, canon, build
 from ..kernel import SimBudgetExceeded
+from ..simthreading import SimDeadlock
 from . import c06 as _c06
 
 PROP = 'C20'
@@ -149,6 +150,10 @@ def gen_case(seed, tier):
                 op = rng.choice(list(_c06.REG_HANDLERS))
                 out.append({'type': rng.choice(_c06.REG_TYPES), 'op': op, 'h': rng.choice(_c06.REG_HANDLERS[op]),
                             'exact': rng.random() < 0.3})
+            if rng.random() < 0.3:
+                # a duck type whose isinstance hook re-enters glom (never matches: look-ups go on as before)
+                op = rng.choice(list(_c06.REG_HANDLERS))
+                out.append({'type': 'NestedDuck', 'op': op, 'h': rng.choice(_c06.REG_HANDLERS[op]), 'exact': False})
             return out
         for _ in range(rng.randint(1, 2)):
             glommers.append({'defaults': rng.random() < 0.85, 'regs': some_regs()})
@@ -255,6 +260,16 @@ def run_case(case, gen_rng=None):
         case['switches'] = {str(k_): v for k_, v in sorted(W.k.switches.items())}
         case['faults'] = dict(W.k.faults)
     digest = W.k.digest()
+    # ---- liveness: a call that ends in SimDeadlock would never have returned
+    for i in range(n):
+        if results[i][0] == 'exc' and isinstance(results[i][1], SimDeadlock):
+            viols.append({'clause': 'liveness', 'sig': 'liveness/call-waits-for-a-lock-for-ever/' + str((W.k.deadlock or {}).get('kind')),
+                          'expected': 'the call returns', 'observed': {'deadlock': W.k.deadlock, 'message': str(results[i][1])},
+                          'task': i, 'digest': digest})
+    if W.k.reach.get('lock.acquire'):
+        stats['reach.lock_acquired'] = W.k.reach['lock.acquire']
+    if W.k.reach.get('lock.contended'):
+        stats['reach.lock_contended'] = W.k.reach['lock.contended']
     sim_views = [_task_view(W, i, results[i]) for i in range(n)]
     stats['tasks'] = n
     stats['switches'] = W.k.n_switches
